@@ -13,7 +13,8 @@ EXPLANATION = (
     'AuthorHeads::insert keeps the maximum; (R3) AuthorHeads::encode, evaluated with abstract collections on (heads table, '
     'size limit) cells under the size model 1 + 40 per pair, emits all heads when unlimited (authors sharing a timestamp '
     'are all kept) and otherwise the longest newest-first prefix that fits; (R4) document removal erases the heads (shared '
-    'with C16.R1). NOT decided: exact bytes kept under a limit.'
+    'with C16.R1); (R5) the heads rebuilt by migration 001 and maintained by entry_put, both evaluated over an abstract '
+    'records table, are the greatest (timestamp, key) per (namespace, author) with ties resolved alike (shared with C18.R2). NOT decided: exact bytes kept under a limit.'
 )
 ASSUMPTIONS = ["redb tables are identified by their key/value types", "postcard size computation trusted"]
 
